@@ -116,6 +116,51 @@ class SimRawSink(io.RawIOBase):
         return n
 
 
+class SpyEnviron(dict):
+    """Stands in for os.environ while the tool runs: same content (plus the scenario's extra variables), and it records which
+    variables that are NOT set the tool's own code asked for. Only look-ups made from a frame inside the mistletoe package
+    count (argparse, locale, tempfile and friends consult the environment for reasons of their own)."""
+
+    def __init__(self, real, extra, package_dir):
+        super().__init__(real)
+        self.update(extra)
+        self.package_dir = package_dir
+        self.missed = set()
+
+    def _note(self, key):
+        if key in self:
+            return
+        f = sys._getframe(2)
+        for _ in range(4):
+            if f is None:
+                break
+            if f.f_code.co_filename.startswith(self.package_dir):
+                self.missed.add(str(key))
+                return
+            f = f.f_back
+
+    def get(self, key, default=None):
+        self._note(key)
+        return super().get(key, default)
+
+    def __getitem__(self, key):
+        self._note(key)
+        return super().__getitem__(key)
+
+    def __contains__(self, key):
+        present = super().__contains__(key)
+        if not present:
+            f = sys._getframe(1)
+            for _ in range(4):
+                if f is None:
+                    break
+                if f.f_code.co_filename.startswith(self.package_dir):
+                    self.missed.add(str(key))
+                    break
+                f = f.f_back
+        return present
+
+
 class SimFS:
     """Directory of simulated files; `open` replacement for the module under test."""
 
@@ -263,6 +308,9 @@ def cli_channel(scn):
     old_cwd = os.getcwd()
     os.chdir(work)
     real_stdout, real_argv = sys.stdout, sys.argv
+    real_environ = os.environ
+    spy = SpyEnviron(real_environ, scn.get('env') or {}, os.path.dirname(os.path.abspath(mistletoe.__file__)) + os.sep)
+    os.environ = spy
     had_open = 'open' in cli_mod.__dict__
     old_open = cli_mod.__dict__.get('open')
     cli_mod.open = fs.open
@@ -280,6 +328,7 @@ def cli_channel(scn):
             if outcome[0] == 'ok':
                 outcome = ('flush-' + core.norm_exc(e)[1], core.norm_exc(e)[2])
     finally:
+        os.environ = real_environ
         os.chdir(old_cwd)
         shutil.rmtree(mirror, ignore_errors=True)
         sys.stdout, sys.argv = real_stdout, real_argv
@@ -289,7 +338,7 @@ def cli_channel(scn):
             del cli_mod.open
     if outcome[0] == 'ok':
         outcome = ('ok', None)
-    return {'outcome': outcome, 'sink': bytes(sink.buf), 'stats': stats, 'opened': fs.opened}
+    return {'outcome': outcome, 'sink': bytes(sink.buf), 'stats': stats, 'opened': fs.opened, 'env_missed': sorted(spy.missed)}
 
 
 def eval_in_process(req):
